@@ -20,7 +20,9 @@ type Line struct {
 // so a command is never a subsequence of stale bytes (precondition of the echo matcher).
 const Markers = "QXZ_=+"
 
-var ansiFinals = []string{"m", "K", "H", "J", "A", "B", "C", "D", "h", "l", "m", "K", "f", "n", "q", "r", "t", "y", "P", "R", "Z", "c", "~"}
+// any final byte of a control sequence (0x40-0x7e), the common ones more often
+var ansiFinals = []string{"m", "K", "H", "J", "A", "B", "C", "D", "h", "l", "m", "K", "f", "n", "q", "r", "t", "y", "P", "R", "Z", "c", "~",
+	"d", "s", "u", "S", "T", "X", "@", "G", "E", "L", "M", "g", "i", "`", "a", "b", "e", "x", "z", "{", "|", "}", "^", "_", "[", "]", "\\", "V", "W", "Y", "I", "F", "N", "O", "Q", "U", "j", "k", "o", "p", "v", "w"}
 
 // GenANSI draws one complete escape sequence of the harness grammar.
 func GenANSI(t *rapid.T) string {
@@ -56,13 +58,18 @@ func GenANSI(t *rapid.T) string {
 		}
 	}
 
+	if rapid.IntRange(0, 9).Draw(t, "ansiInter") == 0 {
+		// intermediate bytes (0x20-0x2f) before the final, e.g. "ESC [ 2 SP q" (cursor style)
+		sb.WriteString(rapid.SampledFrom([]string{" ", "!", "\"", "$", "'"}).Draw(t, "ansiI"))
+	}
+
 	sb.WriteString(rapid.SampledFrom(ansiFinals).Draw(t, "ansiF"))
 
 	return sb.String()
 }
 
 // MaxANSILen is the longest sequence GenANSI produces.
-const MaxANSILen = 2 + 1 + 3*4 + 2 + 1 + 2
+const MaxANSILen = 2 + 1 + 3*4 + 2 + 1 + 2 + 1
 
 // WithANSI inserts 0..k escape sequences at rune boundaries of s.
 func WithANSI(t *rapid.T, s string, k int) Line {
